@@ -27,3 +27,8 @@ PROPS["C20"] = dict(pkg="xmpp", test="TestVf_C20", race=False, level="exploratio
     technique="runtime monitor: net.SplitHostPort oracle on the address held by the constructed transport",
     text="Quick 20k / thorough 1M generated addresses (DNS names with digit/hyphen/punycode labels and trailing dot, IPv4, IPv6 in full/compressed/::/v4-mapped/zoned/upper-case shapes, bracketed or bare, port absent or any of 1..65535; thorough sweeps every port) are passed to ensurePort, NewClientTransport, NewComponentTransport and NewClient; the address the transport would dial must split with net.SplitHostPort into exactly the given host and the given port or 5222. ws:/wss: URLs must give a WebsocketTransport for clients and ErrTransportProtocolNotSupported (also from Component.Connect) for components.",
     note=TB, assumptions=["net.SplitHostPort as the definition of a dialable host:port"])
+PROPS["C06"] = dict(pkg="xmpp", test="TestVf_C06", race=False, level="exploration", timeout=(120, 900), floor=1000,
+    technique="runtime monitor: reference first-match route interpreter + wire-level check of the automatic IQ error",
+    text="Quick 20k / thorough 2M (route table, packet) pairs: tables of 0-8 routes, each a conjunction of 0-3 Packet / StanzaType / IQNamespaces matchers with letter-case variants and a catch-all at any position; packets are parsed from XML by the library as the receive loop does. A 40-line three-valued reference interpreter (true / false / documentation silent) names the route that must run; handler invocations per route and everything passed to the Sender are recorded. For an unmatched IQ get/set the single reply is marshalled and re-parsed: type error, same id, from/to swapped, feature-not-implemented.",
+    note=TB + " Cases the documentation does not decide (namespaces differing only in case, unregistered payload under a namespace matcher) are counted and not asserted.",
+    assumptions=["reference interpreter in harness/xmpp/c06_test.go"])
